@@ -39,6 +39,13 @@ def constructed(rng):
             yield cls(C(rng.randint(0, 6)), col)
             yield E.AddExpression(cls(C(3), col), E.MultiplyExpression(V("x"), cls(C(2), col)))
             yield cls(cls(C(4), col), not col)
+    # the side flag given as something truthy that is not the True singleton (1, a numpy comparison, an IntEnum)
+    import enum
+
+    Side = enum.IntEnum("Side", {"RIGHT": 0, "LEFT": 1})
+    for flag in (1, np.bool_(True), Side.LEFT, np.int64(1), 0, np.bool_(False), Side.RIGHT):
+        yield E.FactorialExpression(C(4), flag)
+        yield E.AddExpression(E.NegateExpression(V("x"), flag), E.MultiplyExpression(C(2), E.SgnExpression(C(-3), flag)))
     yield E.AddExpression(V("x"), V("x"))
     for name in ("\u03b8", "\u03c0", "_t", "xy", "X1", "1", "\u00e9", "x'"):
         yield E.AddExpression(E.MultiplyExpression(C(2), V(name)), E.PowerExpression(V(name), C(2)))
